@@ -12,6 +12,7 @@ import (
 	"fmt"
 	"math/rand/v2"
 	"strings"
+	"sync"
 
 	"cuelabs.dev/go/oci/ociregistry"
 	"cuelabs.dev/go/oci/ociregistry/ociauth"
@@ -285,6 +286,95 @@ func (w *world) step(rng *rand.Rand, op *model.Op) (ok bool) {
 	return true
 }
 
+// concurrentCallers: one Sub view is shared by many callers at once, each with its own auth scope in its
+// context (that is how a server uses it: one view, one request per goroutine). Every call reaches the
+// backend with the caller's own scope, rewritten - never with another caller's or a mixture.
+func concurrentCallers(run *evid.Run, idx int) {
+	prefix := []string{"pre", "pre/fix", "a/b/c"}[idx%3]
+	var mu sync.Mutex
+	var wrong []string
+	nWrong, nCalls := 0, 0
+	note := func(ctx context.Context, repo, method string) {
+		got := ociauth.ScopeFromContext(ctx)
+		// the caller's identity is in the repository name: <prefix>/team<g>/app
+		team := strings.TrimSuffix(strings.TrimPrefix(repo, prefix+"/"), "/app")
+		want := ociauth.ParseScope(fmt.Sprintf("repository:%s/%s/app:pull repository:%s/%s/lib:pull,push registry:catalog:*", prefix, team, prefix, team))
+		mu.Lock()
+		defer mu.Unlock()
+		nCalls++
+		if !got.Equal(want) {
+			nWrong++
+			if len(wrong) < 5 {
+				wrong = append(wrong, fmt.Sprintf("%s(%q) saw scope %q, want %q", method, repo, got.String(), want.String()))
+			}
+		}
+	}
+	backend := &ociregistry.Funcs{
+		ResolveTag_: func(ctx context.Context, repo, tag string) (ociregistry.Descriptor, error) {
+			note(ctx, repo, "ResolveTag")
+			return ociregistry.Descriptor{}, ociregistry.ErrNameUnknown
+		},
+		DeleteTag_: func(ctx context.Context, repo, tag string) error {
+			note(ctx, repo, "DeleteTag")
+			return nil
+		},
+		Tags_: func(ctx context.Context, repo, startAfter string) ociregistry.Seq[string] {
+			note(ctx, repo, "Tags")
+			return ociregistry.SliceSeq([]string{"t"})
+		},
+		ResolveBlob_: func(ctx context.Context, repo string, d ociregistry.Digest) (ociregistry.Descriptor, error) {
+			note(ctx, repo, "ResolveBlob")
+			return ociregistry.Descriptor{}, ociregistry.ErrBlobUnknown
+		},
+	}
+	view := ocifilter.Sub(backend, prefix)
+	const G = 8
+	iters := run.N(400, 4000)
+	var wg sync.WaitGroup
+	var panics []string
+	start := make(chan struct{})
+	for g := 0; g < G; g++ {
+		wg.Add(1)
+		go func() {
+			defer wg.Done()
+			defer func() {
+				if e := recover(); e != nil {
+					mu.Lock()
+					panics = append(panics, fmt.Sprint(e))
+					mu.Unlock()
+				}
+			}()
+			team := fmt.Sprintf("team%d", g+idx*G)
+			ctx := ociauth.ContextWithScope(context.Background(), ociauth.ParseScope(fmt.Sprintf("repository:%s/app:pull repository:%s/lib:pull,push registry:catalog:*", team, team)))
+			repo := team + "/app"
+			<-start
+			for i := 0; i < iters; i++ {
+				switch (i + g) % 4 {
+				case 0:
+					view.ResolveTag(ctx, repo, "t")
+				case 1:
+					view.DeleteTag(ctx, repo, "t")
+				case 2:
+					view.Tags(ctx, repo, "")(func(string, error) bool { return true })
+				case 3:
+					view.ResolveBlob(ctx, repo, "sha256:e3b0c44298fc1c149afbf4c8996fb92427ae41e4649b934ca495991b7852b855")
+				}
+			}
+		}()
+	}
+	close(start)
+	wg.Wait()
+	run.Eval(1)
+	run.Count("concurrent_scoped_calls", nCalls)
+	run.Distinct("concurrent-callers/prefix=" + prefix)
+	if len(panics) > 0 {
+		run.Violation("total/panic/concurrent-callers", fmt.Sprintf("a call through a Sub view shared by %d concurrent callers panicked: %s", G, panics[0]), map[string]any{"prefix": prefix, "panics": panics})
+	}
+	if nWrong > 0 {
+		run.Violation("scope-not-rewritten/concurrent-callers", fmt.Sprintf("%d of %d calls made concurrently through one Sub view reached the backend with a scope that is not the caller's own rewritten one; e.g. %s", nWrong, nCalls, wrong[0]), map[string]any{"prefix": prefix, "examples": wrong})
+	}
+}
+
 func main() {
 	run := evid.Start("C13", "exploration")
 	run.SetRule("cases: (a) every Interface method × caller names (valid, absent, and ill-formed: empty, '.', '..', '../x', 'a/../../x', '/x', 'x/', 'a//b', upper case, …) × prefixes of 1–3 elements (multi-element ones alternately as one Sub and as nested Subs), each under a PRNG-chosen auth scope; (b) histories through Sub next to a twin registry called with prefixed names; (c) repository listings from start points absent/element/between/outside. " +
@@ -376,6 +466,10 @@ func main() {
 			run.Sample("history", map[string]any{"prefix": prefix, "calls": w.hist})
 		}
 	}
+	for i, n := 0, run.N(12, 60); i < n; i++ {
+		concurrentCallers(run, i)
+	}
+	run.FloorCounter("concurrent_scoped_calls", 30000)
 	run.FloorCounter("ill_formed_names", 100)
 	run.FloorCounter("listings", 50)
 	run.FloorCounter("listing_outside_skipped", 50)
